@@ -218,48 +218,8 @@ func ruleC01Secondary(w *World, r *Report) {
 	// J2: findItemIndex returns a loop index of its argument or len(argument)
 	{
 		f := w.Fn(P, "pfcpiface.findItemIndex")
-		okAll := true
-		for _, ret := range returnsOf(f) {
-			v := ret.Results[0]
-			if c, ok := v.(*ssa.Call); ok && calleeName(c) == "builtin.len" && c.Call.Args[0] == ssa.Value(f.Params[0]) {
-				continue
-			}
-			// an induction variable bounded by len(slice)
-			if phi, ok := v.(*ssa.Phi); ok {
-				if l, ok := structuralLower(phi); ok && l >= 0 {
-					// guarded by i < len(slice)
-					if onlyVia(f, ret, func(a, b *ssa.BasicBlock) bool {
-						x, op, y, ok := edgeFact(a, b)
-						if !ok || op != token.LSS || x != ssa.Value(phi) {
-							return false
-						}
-						c, isCall := y.(*ssa.Call)
-						return isCall && calleeName(c) == "builtin.len" && c.Call.Args[0] == ssa.Value(f.Params[0])
-					}) {
-						continue
-					}
-				}
-			}
-			okAll = false
-		}
-		r.check(okAll, "R01.J2", w.FuncName(f), "findItemIndex returns a value in [0, len(slice)]", w.Pos(f.Pos()), "loop index under i < len, or len", "findItemIndex can return a value outside [0, len(slice)]")
-		// the use is guarded by idx != len(list)
-		m := w.Fn(P, "pfcpiface.(*PFCPSession).MarkSessionQer")
-		for _, c := range callsTo(m, f) {
-			call := c.(*ssa.Call)
-			guarded := false
-			for _, b := range m.Blocks {
-				for _, s := range b.Succs {
-					x, op, y, ok := edgeFact(b, s)
-					if ok && op == token.NEQ && x == ssa.Value(call) {
-						if lc, isCall := y.(*ssa.Call); isCall && calleeName(lc) == "builtin.len" {
-							guarded = true
-						}
-					}
-				}
-			}
-			r.check(guarded, "R01.J2", w.FuncName(m), "result of findItemIndex is compared with len before slicing", w.Pos(c.Pos()), "idx != len(list)", "the result of findItemIndex is used for slicing without the not-found check")
-		}
+		r.check(w.indexOfContract(f), "R01.J2", w.FuncName(f), "findItemIndex returns a value in [0, len(slice)]", w.Pos(f.Pos()), "loop index under i < len, or len", "findItemIndex can return a value outside [0, len(slice)]")
+		// (the uses are IDX obligations of their own: the result slices the list it was searched in, under result != len(list))
 	}
 	// J3: end-marker channels have a consumer whenever they can be sent on
 	{
